@@ -68,6 +68,10 @@ where
 
     async fn send(self: Pin<&mut Self>, future: Fut) -> ConsumerState {
         let this = self.project();
+        // The limit has already been reached (e.g. `take(0)`): don't process this item.
+        if this.count >= this.limit {
+            return ConsumerState::Break;
+        }
         *this.count += 1;
         let state = this.inner.send(future).await;
         if this.count >= this.limit {
